@@ -1424,6 +1424,189 @@ def section_iterators(ck, rng):
     ck.section("iterators", images=nimg, array_items=len(terms))
 
 
+# ---------------------------------------------------------------- ImageList.get_list_data
+def with_layout(img, layout):
+    """the same image (equal values and coordmap) on a data array of another memory layout"""
+    from nipy.core.api import Image
+    d = np.asarray(img.get_fdata())
+    if layout == "owns-C":
+        a = np.array(d, order="C", copy=True)                    # owns its memory, C order
+    elif layout == "owns-F":
+        a = np.array(d, order="F", copy=True)                    # owns its memory, Fortran order
+    elif layout == "strided-view":
+        big = np.zeros(tuple(2 * n + 1 for n in d.shape))
+        a = big[tuple(slice(1, None, 2) for _ in d.shape)]       # non-contiguous view of a larger array
+        a[...] = d
+    else:                                                        # "reshaped-view": view of a flat base array
+        a = np.array(d.ravel(), copy=True).reshape(d.shape)
+    return Image(a, img.coordmap)
+
+
+def clim(shape, data):
+    return "(%s, %s)" % (cnatl(shape), czl([int(v) for v in np.asarray(data).ravel()]))
+
+
+def derived_lists(ImageList, Image, ilist, rng):
+    """lists made from one ImageList through its own API (object reuse, re-ordering, replacement): (kind, list)"""
+    n = len(ilist)
+    out = [("plain", ilist), ("reversed", ilist[::-1]), ("copy", ilist[:])]
+    if n >= 2:
+        out.append(("rotated", ImageList([ilist[(k + 1) % n] for k in range(n)])))
+        perm = [int(v) for v in rng.permutation(n)]
+        out.append(("permuted", ImageList([ilist[k] for k in perm])))
+        dup = ilist[:]
+        dup[n - 1] = dup[0]
+        out.append(("entry-replaced-by-another", dup))
+        out.append(("strided-sublist", ilist[::2]))
+        out.append(("tail-sublist", ilist[1:]))
+        first = ilist[0]
+        fresh = Image(np.asarray(first.get_fdata()) * 0 + 1000.0 + np.arange(first.get_fdata().size).reshape(first.shape), first.coordmap)
+        mixed = ilist[:]
+        mixed[int(rng.integers(0, n))] = fresh
+        out.append(("entry-replaced-by-foreign-image", mixed))
+        out.append(("list-repeated-twice", ImageList(list(ilist.list) + list(ilist.list))))
+    return out
+
+
+def section_list_data(ck, rng):
+    """ImageList.get_list_data on lists made by iterating an image over an axis and then re-ordered / modified through the
+    ImageList API, on data arrays of several memory layouts: every value at the list position of ITS image (list order),
+    result = fresh memory (writing into it leaves every image unchanged), exactly vs the model (list_data_agrees)"""
+    from nipy.core.api import Image, ImageList
+    from nipy.core.image import image as imod
+    from nipy.core.reference.coordinate_map import AxisError
+    terms, metas = [], []
+    nimg = ck.n(16, 120)
+    layouts = ["owns-C", "owns-F", "strided-view", "reshaped-view"]
+    ncalls = 0
+    # the empty list
+    try:
+        ImageList().get_list_data(axis=0)
+        ck.fail("get_list_data/empty-list-not-refused", "ImageList().get_list_data(axis=0) did not raise", {})
+    except IndexError:
+        terms.append("list_data_agrees [] 0%Z (IErr IIndex)")
+        metas.append({"kind": "empty", "axis": 0})
+    except Exception as ex:   # noqa
+        ck.fail("get_list_data/unexpected-exception/empty", "ImageList().get_list_data(axis=0) raised %s: %s" % (type(ex).__name__, ex), {})
+    for c in range(nimg):
+        nd = int(rng.choice([2, 3, 3, 4]))
+        base_img = coupled_image(rng, nd)[0] if c % 2 else rand_image(rng, ndim=nd, maxext=3, int_ok=False)
+        layout = layouts[c % len(layouts)]
+        img = with_layout(base_img, layout)
+        snap = snapshot(img)
+        names = [str(n) for n in img.axes.coord_names] + [str(n) for n in img.reference.coord_names]
+        axes = list(range(nd)) + [-nd, names[0], names[int(rng.integers(0, len(names)))]]
+        if ck.tier != "thorough":
+            axes = [0, int(rng.integers(1, nd)), names[0] if c % 3 == 0 else -nd]
+        for axis in axes:
+            for maker in ("from_image", "from_image(dropout=False)", "ImageList(iter_axis)"):
+                try:
+                    with warnings.catch_warnings():
+                        warnings.simplefilter("ignore")
+                        if maker == "from_image":
+                            ilist = ImageList.from_image(img, axis=axis)
+                        elif maker == "from_image(dropout=False)":
+                            ilist = ImageList.from_image(img, axis=axis, dropout=False)
+                        else:
+                            ilist = ImageList(imod.iter_axis(img, axis))
+                except (AxisError, ValueError):
+                    continue
+                except Exception as ex:   # noqa
+                    ck.fail("image_list/unexpected-exception", "%s over %r raised %s: %s" % (maker, axis, type(ex).__name__, ex),
+                            {"image": rimg(img), "axis": axis})
+                    continue
+                first_axis = "first-axis" if (len(ilist) == img.shape[0] and len(ilist) and
+                                              np.array_equal(ilist[0].get_fdata(), np.asarray(img.get_fdata())[0])) else "other-axis"
+                for kind, dl in derived_lists(ImageList, Image, ilist, rng):
+                    els = list(dl.list)
+                    if not els:
+                        continue
+                    feat = "%s/%s/%s" % (kind, first_axis, layout)
+                    esnaps = [snapshot(e) for e in els]
+                    edata = [np.array(e.get_fdata(), copy=True) for e in els]
+                    out_dim = els[0].ndim + 1
+                    model_axes = set(int(v) for v in rng.integers(-out_dim, out_dim, 2)) | {int(rng.choice([out_dim, -out_dim - 1]))}
+                    rep = {"image": rimg(img), "iterated_axis": axis, "made_by": maker, "list_kind": kind, "layout": layout,
+                           "list_data": [np.asarray(d).tolist() for d in edata]}
+                    for oax in range(-out_dim - 1, out_dim + 1):
+                        ncalls += 1
+                        try:
+                            res = dl.get_list_data(axis=oax)
+                            e = None
+                        except Exception as ex:   # noqa
+                            res, e = None, ex
+                        inrange = -out_dim <= oax < out_dim
+                        if e is not None:
+                            if inrange or not isinstance(e, ValueError):
+                                ck.fail("get_list_data/unexpected-exception/%s" % kind, "get_list_data(axis=%d) on a %s list raised %s: %s"
+                                        % (oax, kind, type(e).__name__, e), dict(rep, axis=oax))
+                            elif oax in model_axes:
+                                terms.append("list_data_agrees %s %s (IErr IValue)" % (clist([clim(d.shape, d) for d in edata]), cz(oax)))
+                                metas.append(dict(rep, axis=oax, kind=kind, impl=repr(e)))
+                                ck.count(("ld", c, axis, maker, kind, oax), nontrivial=False, bucket="list_data:refused")
+                            continue
+                        if not inrange:
+                            ck.fail("get_list_data/axis-out-of-range-not-refused", "get_list_data(axis=%d) with %d positions did not raise"
+                                    % (oax, out_dim), dict(rep, axis=oax))
+                            continue
+                        pos = oax if oax >= 0 else oax + out_dim
+                        res = np.asarray(res)
+                        want_shape = edata[0].shape[:pos] + (len(els),) + edata[0].shape[pos:]
+                        bad = None
+                        if res.shape != want_shape:
+                            bad = ("shape", None, "shape %r, expected %r" % (res.shape, want_shape))
+                        else:
+                            for k in range(len(els)):
+                                if not np.array_equal(np.take(res, k, axis=pos), edata[k]):
+                                    bad = ("value-at-wrong-list-position", k, "entry %d along axis %d does not hold the values of image %d of the list" % (k, pos, k))
+                                    break
+                        if bad:
+                            ck.fail("get_list_data/%s/%s" % (bad[0], feat), "get_list_data(axis=%d) of a %s list (%s over %r, %s data): %s"
+                                    % (oax, kind, maker, axis, layout, bad[2]), dict(rep, axis=oax, entry=bad[1], result=res.tolist()))
+                        res_copy = res.copy()
+                        # the result is new memory: it overlaps no image, and writing into it changes no image
+                        shared = np.shares_memory(res, np.asarray(img.get_fdata())) or any(np.shares_memory(res, np.asarray(e_.get_fdata())) for e_ in els)
+                        keep = np.array(img.get_fdata(), copy=True)
+                        if res.flags.writeable:
+                            res[...] = -77.0
+                        changed = snapshot(img) != snap or [snapshot(e_) for e_ in els] != esnaps
+                        if shared or changed:
+                            ck.fail("get_list_data/result-aliases-image-data/%s" % feat,
+                                    "get_list_data(axis=%d) of a %s list (%s over %r, %s data) returns memory shared with the images%s"
+                                    % (oax, kind, maker, axis, layout, ": writing into the result changed them" if changed else ""),
+                                    dict(rep, axis=oax, images_changed_by_writing_into_result=bool(changed)))
+                            if changed:       # put the values back (every element is a view of the image's array, or fresh)
+                                np.asarray(img.get_fdata())[...] = keep
+                                for e_, d_ in zip(els, edata):
+                                    np.asarray(e_.get_fdata())[...] = d_
+                        if oax in model_axes:
+                            terms.append("list_data_agrees %s %s (IOk %s)" % (clist([clim(d.shape, d) for d in edata]), cz(oax), clim(res_copy.shape, res_copy)))
+                            metas.append(dict(rep, axis=oax, kind=kind, feat=feat, impl_shape=list(res_copy.shape), impl=res_copy.ravel().tolist()))
+                            ck.count(("ld", c, axis, maker, kind, oax), nontrivial=(kind not in ("plain", "copy")), bucket="list_data:%s:%s" % (kind, first_axis))
+                    # object reuse: the same list object after its entries were exchanged through __setitem__, and back
+                    if kind == "copy" and len(els) >= 2:
+                        for rnd in ("swapped", "swapped-back"):
+                            dl[0], dl[len(els) - 1] = dl[len(els) - 1], dl[0]
+                            cur = [np.array(e_.get_fdata(), copy=True) for e_ in dl.list]
+                            r2 = np.asarray(dl.get_list_data(axis=0))
+                            if r2.shape != (len(cur),) + cur[0].shape or not all(np.array_equal(r2[k], cur[k]) for k in range(len(cur))):
+                                ck.fail("get_list_data/value-at-wrong-list-position/same-object-after-setitem:%s/%s/%s" % (rnd, first_axis, layout),
+                                        "get_list_data(axis=0) after exchanging the first and last entry of the list (%s): entry k is not image k" % rnd,
+                                        dict(rep, sequence=rnd, result=r2.tolist(), list_data_now=[d.tolist() for d in cur]))
+        if snapshot(img) != snap:
+            ck.fail("get_list_data/operand-mutated", "the image changed while lists over it were collected", {"image": rimg(img)})
+    if ck.build.ok:
+        hdr = HDR + "From NV.C02 Require Import ListData.\n"
+        res = ck.coq_bools(hdr, terms, shard=250, name="listdata")
+        ck.cov["traces_validated_against_impl"] += len(res)
+        for ok, m in zip(res, metas):
+            if not ok:
+                ck.fail("model-vs-impl/get_list_data/%s" % m.get("feat", m["kind"]),
+                        "model and implementation disagree on get_list_data(axis=%r) of a %s list" % (m["axis"], m["kind"]), m)
+                break
+    ck.section("list_data", images=nimg, get_list_data_calls=ncalls, model_terms=len(terms), layouts=layouts)
+
+
 def guarded(ck, name, f, *args):
     """a crash inside one section is a structured failure of that section; the other sections still run"""
     import traceback
@@ -1449,6 +1632,7 @@ def run(ck):
     guarded(ck, "renamings", section_renamings, ck.rng("renamings"))
     guarded(ck, "image_list", section_image_list, ck.rng("imagelist"))
     guarded(ck, "iterators", section_iterators, ck.rng("iterators"))
+    guarded(ck, "list_data", section_list_data, ck.rng("listdata"))
     guarded(ck, "as_xyz", section_as_xyz, ck.rng("asxyz"))
     guarded(ck, "programs", section_programs, ck.rng("programs"))
     ck.section("value-magnitudes", originals_by_kind=dict(sorted(MAG_COUNTS.items())),
